@@ -18,6 +18,7 @@ package builder
 
 import (
 	"fmt"
+	"math"
 	"strconv"
 
 	"seehuhn.de/go/pdf"
@@ -186,6 +187,14 @@ func (b *Builder) emit(name content.OpName, args ...pdf.Object) {
 	}
 
 	op := content.Operator{Name: name, Args: args}
+	for _, arg := range args {
+		// NaN and infinities have no PDF representation
+		if hasNonFinite(arg) {
+			b.Err = fmt.Errorf("operator %s: operand is not a finite number", name)
+			b.Stream = append(b.Stream, op)
+			return
+		}
+	}
 	if err := content.CheckOperatorVersion(name, b.version); err != nil {
 		b.Err = fmt.Errorf("operator %s: %w", name, err)
 		b.Stream = append(b.Stream, op)
@@ -198,6 +207,30 @@ func (b *Builder) emit(name content.OpName, args ...pdf.Object) {
 	}
 
 	b.Stream = append(b.Stream, op)
+}
+
+// hasNonFinite reports whether obj is, or contains, a number which is NaN
+// or infinite.
+func hasNonFinite(obj pdf.Object) bool {
+	switch x := obj.(type) {
+	case pdf.Real:
+		return math.IsNaN(float64(x)) || math.IsInf(float64(x), 0)
+	case pdf.Number:
+		return math.IsNaN(float64(x)) || math.IsInf(float64(x), 0)
+	case pdf.Array:
+		for _, elem := range x {
+			if hasNonFinite(elem) {
+				return true
+			}
+		}
+	case pdf.Dict:
+		for _, val := range x {
+			if hasNonFinite(val) {
+				return true
+			}
+		}
+	}
+	return false
 }
 
 func (b *Builder) isUsable(bits graphics.Bits) bool {
